@@ -95,6 +95,44 @@ func classifyPath(d *declInfo, e ast.Expr, defs map[types.Object]ast.Expr, depth
 			// name of a temporary created inside the directory
 			if sel, ok := x.Fun.(*ast.SelectorExpr); ok {
 				if o := objOf(d.pkg, sel.X); o != nil {
+					// the open temporary handed to a helper: judged where it was created
+					if _, hasDef := defs[o]; !hasDef {
+						if args, callers := paramBindings(d, o); len(args) > 0 {
+							all := true
+							for i, a := range args {
+								cd := callers[i]
+								probe := &ast.CallExpr{Fun: &ast.SelectorExpr{X: a, Sel: sel.Sel}}
+								// evaluate `a.Name()` in the caller: reuse this case with the caller's definitions
+								cdefs := singleDefs(cd.pkg, cd.fd.Body)
+								ao := objOf(cd.pkg, a)
+								okTemp := false
+								if def, ok := cdefs[ao]; ok && ao != nil {
+									if ce, ok := def.(*ast.CallExpr); ok {
+										if g, _ := typeutil.Callee(cd.pkg.TypesInfo, ce).(*types.Func); g != nil && g.FullName() == "os.CreateTemp" && len(ce.Args) == 2 {
+											recvC, _ := recvAndParam(cd)
+											isDirC := func(y ast.Expr) bool {
+												s2, ok := y.(*ast.SelectorExpr)
+												if !ok || s2.Sel.Name != "Path" {
+													return false
+												}
+												f, ok := fieldOf(cd.pkg, s2.X, recvC)
+												return ok && f == "Options"
+											}
+											if (isDirC(ce.Args[0]) || classifyPath(cd, ce.Args[0], cdefs, depth+1).kind == "dir") && patternSafe(cd, ce.Args[1], cdefs) {
+												okTemp = true
+											}
+										}
+									}
+								}
+								_ = probe
+								all = all && okTemp
+							}
+							if all {
+								return pathClass{"temp", "temporary file created inside the directory by the caller"}
+							}
+							return pathClass{"other", "a file handed in by a caller that did not create it as a temporary inside the directory"}
+						}
+					}
 					if def, ok := defs[o]; ok {
 						if ce, ok := def.(*ast.CallExpr); ok {
 							if g, _ := typeutil.Callee(info, ce).(*types.Func); g != nil && g.FullName() == "os.CreateTemp" && len(ce.Args) == 2 && (isDir(ce.Args[0]) || classifyPath(d, ce.Args[0], defs, depth+1).kind == "dir") {
@@ -1182,6 +1220,20 @@ func runC20(c *Ctx) {
 	if d == nil {
 		d = sd
 	}
+	// the steps after the creation may live in a helper that is handed the open temporary: the
+	// protocol is then judged in the function that renames, with the creation vouched for by the
+	// provenance of the file it is given (classifyPath follows the parameter to CreateTemp)
+	helperForm := false
+	if rd, _, _ := protocolSite(c, sd, func(pd *declInfo, cs callSite) bool {
+		if cs.callee.FullName() != "os.Rename" || len(cs.call.Args) != 2 {
+			return false
+		}
+		pdefs := singleDefs(pd.pkg, pd.fd.Body)
+		return classifyPath(pd, cs.call.Args[0], pdefs, 0).kind == "temp" && classifyPath(pd, cs.call.Args[1], pdefs, 0).kind == "final"
+	}); rd != nil && rd.obj != d.obj {
+		d = rd
+		helperForm = true
+	}
 	defs := singleDefs(d.pkg, d.fd.Body)
 	var create, write, closeC, rename *ast.CallExpr
 	var tmpObj types.Object
@@ -1208,24 +1260,51 @@ func runC20(c *Ctx) {
 		}
 	}
 	pos := c.P.Pos(d.fd.Pos())
+	doneBasic := false
+	if helperForm && create == nil && write != nil && rename != nil {
+		// the file the helper writes and renames is its *os.File parameter, created by the caller
+		if sel, ok := write.Fun.(*ast.SelectorExpr); ok {
+			tmpObj = objOf(d.pkg, sel.X)
+		}
+		if tmpObj != nil && closeC != nil {
+			onTmp := func(ce *ast.CallExpr) bool {
+				sel, ok := ce.Fun.(*ast.SelectorExpr)
+				return ok && objOf(d.pkg, sel.X) == tmpObj
+			}
+			// Rename's source is tmp.Name() of that same parameter (classified "temp" above)
+			srcOK := false
+			if nc, ok := chase(d.pkg, defs, rename.Args[0]).(*ast.CallExpr); ok {
+				if sel, ok := nc.Fun.(*ast.SelectorExpr); ok && objOf(d.pkg, sel.X) == tmpObj {
+					srcOK = true
+				}
+			}
+			c.check(onTmp(write) && onTmp(closeC) && srcOK, R2, storeFn+"#same-file", c.P.Pos(write.Pos()), "Write, Close and Rename act on the temporary file handed in", "Write/Close/Rename do not act on one and the same temporary file")
+			c.check(write.Pos() < closeC.Pos() && closeC.Pos() < rename.Pos(), R2, storeFn+"#order", c.P.Pos(rename.Pos()),
+				"CreateTemp (caller) → Write → Close → Rename", "the steps are not in the order Write → Close → Rename: the entry can become visible before its contents are complete")
+			create = rename // the creation is vouched for by the provenance of the parameter
+			doneBasic = true
+		}
+	}
 	if create == nil || write == nil || closeC == nil || rename == nil {
 		c.bad(R2, storeFn+"#steps", pos, fmt.Sprintf("replace protocol incomplete: CreateTemp-in-directory=%v, Write=%v, checked Close=%v, Rename(temp→final)=%v", create != nil, write != nil, closeC != nil, rename != nil))
 		return
 	}
-	// find the temp file variable
-	ast.Inspect(d.fd.Body, func(n ast.Node) bool {
-		if as, ok := n.(*ast.AssignStmt); ok && len(as.Rhs) == 1 && as.Rhs[0] == ast.Expr(create) && len(as.Lhs) >= 1 {
-			tmpObj = objOf(d.pkg, as.Lhs[0])
+	if !doneBasic {
+		// find the temp file variable
+		ast.Inspect(d.fd.Body, func(n ast.Node) bool {
+			if as, ok := n.(*ast.AssignStmt); ok && len(as.Rhs) == 1 && as.Rhs[0] == ast.Expr(create) && len(as.Lhs) >= 1 {
+				tmpObj = objOf(d.pkg, as.Lhs[0])
+			}
+			return true
+		})
+		onTmp := func(ce *ast.CallExpr) bool {
+			sel, ok := ce.Fun.(*ast.SelectorExpr)
+			return ok && objOf(d.pkg, sel.X) == tmpObj && tmpObj != nil
 		}
-		return true
-	})
-	onTmp := func(ce *ast.CallExpr) bool {
-		sel, ok := ce.Fun.(*ast.SelectorExpr)
-		return ok && objOf(d.pkg, sel.X) == tmpObj && tmpObj != nil
+		c.check(onTmp(write) && onTmp(closeC), R2, storeFn+"#same-file", c.P.Pos(write.Pos()), "Write and Close act on the temporary file", "Write/Close do not act on the file returned by CreateTemp")
+		c.check(create.Pos() < write.Pos() && write.Pos() < closeC.Pos() && closeC.Pos() < rename.Pos(), R2, storeFn+"#order", c.P.Pos(rename.Pos()),
+			"CreateTemp → Write → Close → Rename", "the steps are not in the order CreateTemp → Write → Close → Rename: the entry can become visible before its contents are complete")
 	}
-	c.check(onTmp(write) && onTmp(closeC), R2, storeFn+"#same-file", c.P.Pos(write.Pos()), "Write and Close act on the temporary file", "Write/Close do not act on the file returned by CreateTemp")
-	c.check(create.Pos() < write.Pos() && write.Pos() < closeC.Pos() && closeC.Pos() < rename.Pos(), R2, storeFn+"#order", c.P.Pos(rename.Pos()),
-		"CreateTemp → Write → Close → Rename", "the steps are not in the order CreateTemp → Write → Close → Rename: the entry can become visible before its contents are complete")
 	// the Write's error decides: a short or failed write must leave before the rename publishes it
 	wChecked := false
 	for _, n := range enclosing(d.fd.Body, write) {
